@@ -87,24 +87,20 @@ theorem include_rejects_unbalanced (o : Oracle Node) (ho : OracleTok o) (s : Str
   rw [k0, k1] at b
   omega
 
-/-- Use_Stmt: ONLY when nothing precedes the `::` but a `, nature` (`useNatOK`); otherwise the text before
-    the `::` is never looked at (`use_drops_before_colons`) -/
-theorem use_rejects_unbalanced_partial (o : Oracle Node) (ho : OracleTok o) (s : Str)
-    (items : List (Item Node)) (hm : matchUse o s = .ok items) (hs : useNatOK s = true)
+/-- Use_Stmt (after the repair of `Use_Stmt._match`): unconditional -/
+theorem use_rejects_unbalanced (o : Oracle Node) (ho : OracleTok o) (s : Str)
+    (items : List (Item Node)) (hm : matchUse o s = .ok items)
     (hbal : ∀ i ∈ items, net (i.text o) = 0) : net s = 0 := by
-  obtain ⟨t, _, h1, h2⟩ := use_tostr_match_tokens_partial o ho s items hm hs
+  obtain ⟨t, _, h1, h2⟩ := use_tostr_match_tokens o ho s items hm
   rw [← net_eq_of_toks h1]; exact h2 hbal
 
-/-- the full statement is false: `use (a + :: m` is accepted (also by the real parser), the children are
-    balanced, the statement is not -/
-theorem use_unbalanced_accepted :
-    matchUse echoOracle "use (a + :: m".toList =
-      .ok [.none, .str "::".toList, .node "m".toList, .str [], .none] ∧
-    net "m".toList = 0 ∧ net "use (a + :: m".toList ≠ 0 ∧ useNatOK "use (a + :: m".toList = false := by decide
+/-- REGRESSION witness: `use (a + :: m` (an unbalanced parenthesis before the `::`) was accepted; now rejected -/
+theorem use_unbalanced_rejected :
+    matchUse echoOracle "use (a + :: m".toList = .noMatch ∧ net "use (a + :: m".toList ≠ 0 := by decide
 
 end Fp.Rest
 
-#print axioms Fp.Rest.use_rejects_unbalanced_partial
+#print axioms Fp.Rest.use_rejects_unbalanced
 #print axioms Fp.Rest.pos_rejects_unbalanced
 #print axioms Fp.Rest.specTable_rejects_unbalanced
 #print axioms Fp.Rest.bind_rejects_unbalanced_partial
